@@ -6,20 +6,19 @@ Import ListNotations.
 Local Open Scope string_scope.
 
 Inductive site_class : Type :=
-| Proved (lemma : string)        (* the panicking branch is unreachable: lemma in Proofs/C01.v *)
+| Proved (lemma : string)        (* the panicking branch is unreachable: lemma in Proofs/C01.v or Proofs/C01Sites.v *)
 | Reachable (finding : string)   (* a panic reachable within the property's bounds: known finding *)
 | Unmodelled.                    (* not modelled: covered by exploration only *)
 
 Definition ledger : list ((string * string * string * string * N) * site_class) :=
   [
-(("rsass/src/css/atrule.rs", "write", "index", "if let [ AtRuleBodyItem :: Comment ( c ) ] = & body [ .. ] {", 1%N), Unmodelled);
-   (("rsass/src/css/call_args.rs", "len", "intarith", "self . positional . len ( ) + self . named . len ( )", 1%N), Unmodelled);
+(("rsass/src/css/atrule.rs", "write", "index", "if let [ AtRuleBodyItem :: Comment ( c ) ] = & body [ .. ] {", 1%N), (Proved "slice_full_safe"));
+   (("rsass/src/css/call_args.rs", "len", "intarith", "self . positional . len ( ) + self . named . len ( )", 1%N), (Proved "call_args_len_safe"));
    (("rsass/src/css/comment.rs", "write", "intarith", "let start = buf . format ( ) . get_indent ( indent - existing ) ;", 1%N), Unmodelled);
    (("rsass/src/css/comment.rs", "write", "intarith", "let start = buf . format ( ) . get_indent ( existing - indent - 1 ) ;", 1%N), Unmodelled);
    (("rsass/src/css/comment.rs", "write", "intarith", "let start = buf . format ( ) . get_indent ( existing - indent - 1 ) ;", 2%N), Unmodelled);
    (("rsass/src/css/selectors/pseudo.rs", "replace", "unwrap", "Arg :: Selector ( s . replace ( original , replacement ) . unwrap ( ) )", 1%N), Unmodelled);
-   (("rsass/src/css/selectors/selector.rs", "resolve_ref", "unwrap", "compound : s . compound . append ( & self . compound ) . unwrap ( ) ,", 1%N), (Reachable "F3: `&` suffix that does not parse after the parent"));
-   (("rsass/src/css/selectors/selectorset.rs", "is_root", "index", "self . s . len ( ) == 1 && self . s [ 0 ] == Selector :: default ( )", 1%N), Unmodelled);
+   (("rsass/src/css/selectors/selectorset.rs", "is_root", "index", "self . s . len ( ) == 1 && self . s [ 0 ] == Selector :: default ( )", 1%N), (Proved "guarded_index_safe"));
    (("rsass/src/error.rs", "fmt", "intarith", "match * self {", 1%N), Unmodelled);
    (("rsass/src/error.rs", "fmt", "intarith", "if * module {", 1%N), Unmodelled);
    (("rsass/src/input/context.rs", "lock_loading", "unwrap", "pos . next ( ) . unwrap ( ) . clone ( ) ,", 1%N), Unmodelled);
@@ -35,8 +34,8 @@ Definition ledger : list ((string * string * string * string * N) * site_class) 
    (("rsass/src/input/sourcepos.rs", "show_inner", "index", "let line = & data [ start .. end ] ;", 1%N), Unmodelled);
    (("rsass/src/input/sourcepos.rs", "show_inner", "intarith", "lpos = self . start - start ,", 1%N), Unmodelled);
    (("rsass/src/input/sourcepos.rs", "show_inner", "intarith", "mark = marker . to_string ( ) . repeat ( ( self . end - self . start ) . max ( 1 ) ) ,", 1%N), Unmodelled);
-   (("rsass/src/input/sourcepos.rs", "opt_back", "intarith", "if self . source . data ( ) . get ( self . start - len .. self . start )", 1%N), Unmodelled);
-   (("rsass/src/input/sourcepos.rs", "opt_back", "intarith", "self . start -= len ;", 1%N), Unmodelled);
+   (("rsass/src/input/sourcepos.rs", "opt_back", "intarith", "if self . source . data ( ) . get ( self . start - len .. self . start )", 1%N), (Proved "opt_back_safe"));
+   (("rsass/src/input/sourcepos.rs", "opt_back", "intarith", "self . start -= len ;", 1%N), (Proved "opt_back_safe"));
    (("rsass/src/input/sourcepos.rs", "opt_in_calc", "intarith", "self . start += s . len ( ) ;", 1%N), Unmodelled);
    (("rsass/src/input/sourcepos.rs", "opt_in_calc", "intarith", "self . end -= 1 ;", 1%N), Unmodelled);
    (("rsass/src/input/sourcepos.rs", "opt_trail_ws", "intarith", "self . end += 1 ;", 1%N), Unmodelled);
@@ -44,11 +43,11 @@ Definition ledger : list ((string * string * string * string * N) * site_class) 
    (("rsass/src/input/sourcepos.rs", "mock_impl", "intarith", "end : line . len ( ) - 2 ,", 1%N), Unmodelled);
    (("rsass/src/output/cssbuf.rs", "start_block", "intarith", "self . indent += 2 ;", 1%N), Unmodelled);
    (("rsass/src/output/cssbuf.rs", "end_block", "intarith", "self . indent -= 2 ;", 1%N), Unmodelled);
-   (("rsass/src/output/cssbuf.rs", "do_indent_no_nl", "index", "self . add_str ( & stuff [ 1 .. ] ) ;", 1%N), Unmodelled);
+   (("rsass/src/output/cssbuf.rs", "do_indent_no_nl", "index", "self . add_str ( & stuff [ 1 .. ] ) ;", 1%N), (Proved "do_indent_no_nl_safe"));
    (("rsass/src/output/cssdata.rs", "into_buffer", "intarith", "let mut result = Vec :: with_capacity ( mark . len ( ) + buf . len ( ) ) ;", 1%N), Unmodelled);
    (("rsass/src/output/format.rs", "get_indent", "index", "& INDENT [ ..= len . min ( INDENT . len ( ) - 1 ) ]", 1%N), (Proved "indent_safe"));
    (("rsass/src/output/format.rs", "get_indent", "intarith", "& INDENT [ ..= len . min ( INDENT . len ( ) - 1 ) ]", 1%N), (Proved "indent_nonempty"));
-   (("rsass/src/output/transform.rs", "check_body", "index", "name_in ( name , & CSS_AT_RULES [ .. ] )", 1%N), Unmodelled);
+   (("rsass/src/output/transform.rs", "check_body", "index", "name_in ( name , & CSS_AT_RULES [ .. ] )", 1%N), (Proved "slice_full_safe"));
    (("rsass/src/parser/css/media.rs", "args", "unwrap", "v . into_iter ( ) . next ( ) . unwrap ( )", 1%N), Unmodelled);
    (("rsass/src/parser/css/media.rs", "media_args_and", "unwrap", "v . into_iter ( ) . next ( ) . unwrap ( )", 1%N), Unmodelled);
    (("rsass/src/parser/css/media.rs", "media_args_or", "unwrap", "v . into_iter ( ) . next ( ) . unwrap ( )", 1%N), Unmodelled);
@@ -86,25 +85,26 @@ Definition ledger : list ((string * string * string * string * N) * site_class) 
    (("rsass/src/parser/value.rs", "hexchar_raw", "unwrap", "ch . to_digit ( 16 ) . unwrap ( ) as u8", 1%N), Unmodelled);
    (("rsass/src/sass/call_args.rs", "evaluate_single", "intarith", "i += items . len ( ) ;", 1%N), Unmodelled);
    (("rsass/src/sass/call_args.rs", "evaluate_single", "intarith", "i += splat . len ( ) ;", 1%N), Unmodelled);
-   (("rsass/src/sass/functions/color/channels.rs", "try_from", "index", "Value :: List ( v , Some ( ListSeparator :: Slash ) , _ ) => match & v [ .. ] {", 1%N), Unmodelled);
-   (("rsass/src/sass/functions/color/channels.rs", "conv", "index", "CallError :: msg ( format ! ( ""Missing element ${}."" , names [ 0 ] ) )", 1%N), Unmodelled);
-   (("rsass/src/sass/functions/color/channels.rs", "conv", "index", "CallError :: msg ( format ! ( ""Missing element ${}."" , names [ 1 ] ) )", 1%N), Unmodelled);
-   (("rsass/src/sass/functions/color/channels.rs", "conv", "index", "CallError :: msg ( format ! ( ""Missing element ${}."" , names [ 2 ] ) )", 1%N), Unmodelled);
-   (("rsass/src/sass/functions/color/mod.rs", "inner", "index", "l . len ( ) == 2 && inner ( & l [ 0 ] )", 1%N), Unmodelled);
-   (("rsass/src/sass/functions/list.rs", "create_module", "intarith", "return Ok ( Value :: scalar ( i + 1 ) ) ;", 1%N), Unmodelled);
+   (("rsass/src/sass/functions/color/channels.rs", "try_from", "index", "Value :: List ( v , Some ( ListSeparator :: Slash ) , _ ) => match & v [ .. ] {", 1%N), (Proved "slice_full_safe"));
+   (("rsass/src/sass/functions/color/channels.rs", "conv", "index", "CallError :: msg ( format ! ( ""Missing element ${}."" , names [ 0 ] ) )", 1%N), (Proved "conv_names_safe"));
+   (("rsass/src/sass/functions/color/channels.rs", "conv", "index", "CallError :: msg ( format ! ( ""Missing element ${}."" , names [ 1 ] ) )", 1%N), (Proved "conv_names_safe"));
+   (("rsass/src/sass/functions/color/channels.rs", "conv", "index", "CallError :: msg ( format ! ( ""Missing element ${}."" , names [ 2 ] ) )", 1%N), (Proved "conv_names_safe"));
+   (("rsass/src/sass/functions/color/mod.rs", "inner", "index", "l . len ( ) == 2 && inner ( & l [ 0 ] )", 1%N), (Proved "guarded_index_safe"));
+   (("rsass/src/sass/functions/list.rs", "create_module", "intarith", "return Ok ( Value :: scalar ( i + 1 ) ) ;", 1%N), (Proved "enumerate_plus_one_safe"));
+   (("rsass/src/sass/functions/list.rs", "create_module", "intarith", "return Ok ( Value :: scalar ( i + 1 ) ) ;", 2%N), (Proved "enumerate_plus_one_safe"));
    (("rsass/src/sass/functions/list.rs", "create_module", "intarith", "if * k == l [ 0 ] && * v == l [ 1 ] {", 1%N), Unmodelled);
-   (("rsass/src/sass/functions/list.rs", "create_module", "index", "if * k == l [ 0 ] && * v == l [ 1 ] {", 1%N), Unmodelled);
-   (("rsass/src/sass/functions/list.rs", "create_module", "index", "if * k == l [ 0 ] && * v == l [ 1 ] {", 2%N), Unmodelled);
-   (("rsass/src/sass/functions/list.rs", "create_module", "intarith", "return Ok ( Value :: scalar ( i + 1 ) ) ;", 2%N), Unmodelled);
-   (("rsass/src/sass/functions/list.rs", "create_module", "intarith", "arg . named . get_item ( n - arg . positional . len ( ) ) . map_or (", 1%N), Unmodelled);
-   (("rsass/src/sass/functions/list.rs", "create_module", "index", "Ok ( list [ n ] . clone ( ) )", 1%N), Unmodelled);
-   (("rsass/src/sass/functions/list.rs", "create_module", "index", "list [ i ] = s . get ( name ! ( value ) ) ? ;", 1%N), Unmodelled);
-   (("rsass/src/sass/functions/list.rs", "create_module", "index", "let items = lists . iter ( ) . map ( | v | v [ i ] . clone ( ) ) . collect ( ) ;", 1%N), Unmodelled);
-   (("rsass/src/sass/functions/list.rs", "index_of", "intarith", "Ok ( ( n - 1 ) as usize )", 1%N), Unmodelled);
-   (("rsass/src/sass/functions/list.rs", "index_of", "intarith", "Ok ( ( len as i64 + n ) as usize )", 1%N), Unmodelled);
-   (("rsass/src/sass/functions/map.rs", "do_deep_remove", "index", "map . remove ( & keys [ 0 ] ) ;", 1%N), Unmodelled);
-   (("rsass/src/sass/functions/map.rs", "do_deep_remove", "index", "if let Some ( Value :: Map ( inner ) ) = map . get_mut ( & keys [ 0 ] ) {", 1%N), Unmodelled);
-   (("rsass/src/sass/functions/map.rs", "do_deep_remove", "index", "do_deep_remove ( inner , & keys [ 1 .. ] ) ;", 1%N), Unmodelled);
+   (("rsass/src/sass/functions/list.rs", "create_module", "index", "if * k == l [ 0 ] && * v == l [ 1 ] {", 1%N), (Proved "index_map_pair_safe"));
+   (("rsass/src/sass/functions/list.rs", "create_module", "index", "if * k == l [ 0 ] && * v == l [ 1 ] {", 2%N), (Proved "index_map_pair_safe"));
+   (("rsass/src/sass/functions/list.rs", "create_module", "intarith", "return Ok ( Value :: scalar ( i + 1 ) ) ;", 3%N), (Proved "enumerate_plus_one_safe"));
+   (("rsass/src/sass/functions/list.rs", "create_module", "intarith", "arg . named . get_item ( n - arg . positional . len ( ) ) . map_or (", 1%N), (Proved "nth_arglist_safe"));
+   (("rsass/src/sass/functions/list.rs", "create_module", "index", "Ok ( list [ n ] . clone ( ) )", 1%N), (Proved "nth_list_safe"));
+   (("rsass/src/sass/functions/list.rs", "create_module", "index", "list [ i ] = s . get ( name ! ( value ) ) ? ;", 1%N), (Proved "nth_list_safe"));
+   (("rsass/src/sass/functions/list.rs", "create_module", "index", "let items = lists . iter ( ) . map ( | v | v [ i ] . clone ( ) ) . collect ( ) ;", 1%N), (Proved "zip_access_safe"));
+   (("rsass/src/sass/functions/list.rs", "index_of", "intarith", "Ok ( ( n - 1 ) as usize )", 1%N), (Proved "index_of_safe"));
+   (("rsass/src/sass/functions/list.rs", "index_of", "intarith", "Ok ( ( len as i64 + n ) as usize )", 1%N), (Proved "index_of_safe"));
+   (("rsass/src/sass/functions/map.rs", "do_deep_remove", "index", "map . remove ( & keys [ 0 ] ) ;", 1%N), (Proved "deep_remove_safe"));
+   (("rsass/src/sass/functions/map.rs", "do_deep_remove", "index", "if let Some ( Value :: Map ( inner ) ) = map . get_mut ( & keys [ 0 ] ) {", 1%N), (Proved "deep_remove_safe"));
+   (("rsass/src/sass/functions/map.rs", "do_deep_remove", "index", "do_deep_remove ( inner , & keys [ 1 .. ] ) ;", 1%N), (Proved "deep_remove_safe"));
    (("rsass/src/sass/functions/math.rs", "create_module", "intarith", "Some ( bound ) => Ok ( Value :: scalar ( fastrand :: i64 ( 0 .. bound ) + 1 ) ) ,", 1%N), Unmodelled);
    (("rsass/src/sass/functions/math.rs", "create_module", "unwrap", "f . define ( name ! ( pi ) , Value :: scalar ( PI ) ) . unwrap ( ) ;", 1%N), Unmodelled);
    (("rsass/src/sass/functions/math.rs", "create_module", "unwrap", "f . define ( name ! ( e ) , Value :: scalar ( E ) ) . unwrap ( ) ;", 1%N), Unmodelled);
@@ -114,22 +114,22 @@ Definition ledger : list ((string * string * string * string * N) * site_class) 
    (("rsass/src/sass/functions/math.rs", "create_module", "unwrap", ". unwrap ( ) ;", 4%N), Unmodelled);
    (("rsass/src/sass/functions/math.rs", "create_module", "unwrap", ". unwrap ( ) ;", 5%N), Unmodelled);
    (("rsass/src/sass/functions/math/css.rs", "do_eval", "unwrap", "let arg = args . get_single ( ) . unwrap ( ) ;", 1%N), Unmodelled);
-   (("rsass/src/sass/functions/string.rs", "create_module", "intarith", "Value :: scalar ( 1 + string [ 0 .. i ] . chars ( ) . count ( ) )", 1%N), Unmodelled);
-   (("rsass/src/sass/functions/string.rs", "create_module", "index", "Value :: scalar ( 1 + string [ 0 .. i ] . chars ( ) . count ( ) )", 1%N), Unmodelled);
-   (("rsass/src/sass/functions/string.rs", "create_module", "intarith", "len . saturating_sub ( index . unsigned_abs ( ) as usize - 1 )", 1%N), Unmodelled);
-   (("rsass/src/sass/functions/string.rs", "create_module", "intarith", "min ( start_at as usize - 1 , len )", 1%N), Unmodelled);
-   (("rsass/src/sass/functions/string.rs", "create_module", "intarith", "len . saturating_sub ( end_at . unsigned_abs ( ) as usize - 1 )", 1%N), Unmodelled);
+   (("rsass/src/sass/functions/string.rs", "create_module", "intarith", "Value :: scalar ( 1 + string [ 0 .. i ] . chars ( ) . count ( ) )", 1%N), (Proved "str_index_site_safe"));
+   (("rsass/src/sass/functions/string.rs", "create_module", "index", "Value :: scalar ( 1 + string [ 0 .. i ] . chars ( ) . count ( ) )", 1%N), (Proved "str_index_site_safe"));
+   (("rsass/src/sass/functions/string.rs", "create_module", "intarith", "len . saturating_sub ( index . unsigned_abs ( ) as usize - 1 )", 1%N), (Proved "insert_index_safe"));
+   (("rsass/src/sass/functions/string.rs", "create_module", "intarith", "min ( start_at as usize - 1 , len )", 1%N), (Proved "slice_start_safe"));
+   (("rsass/src/sass/functions/string.rs", "create_module", "intarith", "len . saturating_sub ( end_at . unsigned_abs ( ) as usize - 1 )", 1%N), (Proved "slice_end_safe"));
    (("rsass/src/sass/functions/string.rs", "create_module", "intarith", "Mutex :: new ( u64 :: from ( std :: process :: id ( ) ) * 0xa01 )", 1%N), Unmodelled);
    (("rsass/src/sass/functions/string.rs", "create_module", "unwrap", "let mut v = CALL_ID . lock ( ) . unwrap ( ) ;", 1%N), Unmodelled);
    (("rsass/src/sass/functions/string.rs", "create_module", "intarith", "* v += 1 ;", 1%N), Unmodelled);
-   (("rsass/src/sass/string.rs", "single_raw", "index", "&& let StringPart :: Raw ( s ) = & self . parts [ 0 ]", 1%N), Unmodelled);
+   (("rsass/src/sass/string.rs", "single_raw", "index", "&& let StringPart :: Raw ( s ) = & self . parts [ 0 ]", 1%N), (Proved "guarded_index_safe"));
    (("rsass/src/value/colors/rgba.rs", "cmp_chan", "unwrap", "( false , false ) => a . partial_cmp ( & b ) . unwrap ( ) ,", 1%N), Unmodelled);
    (("rsass/src/value/number.rs", "fmt", "intarith", "let max_decimals = 16 - whole . log10 ( ) . ceil ( ) as usize ;", 1%N), Unmodelled);
    (("rsass/src/value/number.rs", "fmt", "intarith", "let end = ( frac * 10. ) . round ( ) . abs ( ) as u8 ;", 1%N), Unmodelled);
    (("rsass/src/value/number.rs", "fmt", "intarith", "dec . push ( char :: from ( c as u8 + 1 ) ) ;", 1%N), Unmodelled);
    (("rsass/src/value/range.rs", "new", "intarith", "let to = if inclusive { to + step } else { to } ;", 1%N), Unmodelled);
    (("rsass/src/value/range.rs", "next", "intarith", "self . from += self . step ;", 1%N), Unmodelled);
-   (("rsass/src/value/unitset.rs", "valid_in_css", "index", "match & self . dim [ .. ] {", 1%N), Unmodelled);
+   (("rsass/src/value/unitset.rs", "valid_in_css", "index", "match & self . dim [ .. ] {", 1%N), (Proved "slice_full_safe"));
    (("rsass/src/variablescope.rs", "expose", "unwrap", "for ( name , function ) in & * self . functions . lock ( ) . unwrap ( ) {", 1%N), Unmodelled);
    (("rsass/src/variablescope.rs", "expose", "unwrap", "for ( name , m ) in & * self . mixins . lock ( ) . unwrap ( ) {", 1%N), Unmodelled);
    (("rsass/src/variablescope.rs", "expose", "unwrap", "for ( name , value ) in & * self . variables . lock ( ) . unwrap ( ) {", 1%N), Unmodelled);
@@ -139,7 +139,7 @@ Definition ledger : list ((string * string * string * string * N) * site_class) 
    (("rsass/src/variablescope.rs", "get_module", "unwrap", ". unwrap ( )", 1%N), Unmodelled);
    (("rsass/src/variablescope.rs", "set_variable", "unwrap", "self . variables . lock ( ) . unwrap ( ) . insert ( name , val ) ;", 1%N), Unmodelled);
    (("rsass/src/variablescope.rs", "define_global", "unwrap", "self . variables . lock ( ) . unwrap ( ) . insert ( name , val ) ;", 1%N), Unmodelled);
-   (("rsass/src/variablescope.rs", "define_multi", "index", "Ok ( self . define ( names [ 0 ] . clone ( ) , value ) ? )", 1%N), Unmodelled);
+   (("rsass/src/variablescope.rs", "define_multi", "index", "Ok ( self . define ( names [ 0 ] . clone ( ) , value ) ? )", 1%N), (Proved "guarded_index_safe"));
    (("rsass/src/variablescope.rs", "get_local_or_none", "unwrap", ". unwrap ( )", 1%N), Unmodelled);
    (("rsass/src/variablescope.rs", "store_local_values", "unwrap", "let vars = self . variables . lock ( ) . unwrap ( ) ;", 1%N), Unmodelled);
    (("rsass/src/variablescope.rs", "restore_local_values", "unwrap", "let mut vars = self . variables . lock ( ) . unwrap ( ) ;", 1%N), Unmodelled);
